@@ -101,6 +101,17 @@ Proof.
   assert ((v =? 1) = false) as -> by lia. assert ((v =? 0) = false) as -> by lia. reflexivity.
 Qed.
 
+Lemma is_protected_v_false (v : Z) : 0 <= v ->
+  (is_protected_v v = false <-> v = 27 \/ v = 28 \/ v = 1 \/ v = 0).
+Proof.
+  intros Hv. pose proof two64_val as T. unfold is_protected_v.
+  rewrite (bitlen_le _ 8) by lia. change (2 ^ 8) with 256. rewrite Z.abs_eq by lia.
+  destruct (v <? 256) eqn:E.
+  - rewrite u64_small by (rewrite Z.abs_eq; lia). rewrite Z.abs_eq by lia.
+    rewrite !andb_false_iff, !negb_false_iff, !Z.eqb_eq. lia.
+  - split; [discriminate|]. lia.
+Qed.
+
 (* ---------- the signature hash ignores V, R, S and the tx's own chain field ---------- *)
 Lemma signer_preimage_set_chain_vrs (sg : signer) (t : tx) (c v r s : Z) :
   signer_preimage sg (set_chain_vrs t c v r s) = signer_preimage sg t.
@@ -468,19 +479,123 @@ Section Scheme.
           apply Hfin; apply u256_from_big_small; lia.
   Qed.
 
+
+  (* ---------- recovering under ANOTHER signer ---------- *)
+  (* a signature made by a signer without chain id (Frontier, Homestead) is
+     unprotected and accepted by every signer; one made for chain id c is accepted by
+     every signer for chain id c that supports the type (e.g. London-signed under Prague) *)
+  Definition compatible (sg sg' : signer) (ty : txtype) : Prop :=
+    signer_supports sg' ty = true /\
+    match signer_chain_id sg with
+    | None => True
+    | Some c => signer_chain_id sg' = Some c
+    end.
+
+  Lemma unprotected_signed (sg' : signer) (t : tx) (r s v : Z) (pk : pubkey) :
+    is_legacy (t_type t) = true ->
+    recover (H (frontier_preimage t)) r s v = Some pk ->
+    1 <= r < secp_n -> 1 <= s <= secp_half_n -> v = 0 \/ v = 1 ->
+    sender sg' (set_vrs t (v + 27) r s) = ROk (addr_of pk).
+  Proof.
+    intros Hl Hr Hrr Hs Hv. rewrite sender_spec.
+    assert (Hty : t_type (set_vrs t (v + 27) r s) = t_type t) by reflexivity.
+    assert (Hp : tx_protected (set_vrs t (v + 27) r s) = false).
+    { unfold tx_protected. rewrite Hty. destruct (t_type t); try discriminate.
+      cbn [t_v set_vrs]. apply is_protected_v_false; lia. }
+    assert (Hsup : signer_supports sg' (t_type t) = true).
+    { destruct sg'; cbn [signer_supports]; try exact Hl.
+      destruct (t_type t); try discriminate. reflexivity. }
+    rewrite Hty, Hsup. cbn [negb].
+    assert (chain_mismatch sg' (set_vrs t (v + 27) r s) = false) as ->.
+    { destruct sg'; cbn [chain_mismatch]; try reflexivity; rewrite Hty, Hl, Hp; reflexivity. }
+    assert (norm_v sg' (set_vrs t (v + 27) r s) = v + 27) as ->.
+    { destruct sg'; cbn [norm_v]; try reflexivity; rewrite Hty, Hl, Hp; reflexivity. }
+    assert (sender_preimage sg' (set_vrs t (v + 27) r s) = frontier_preimage t) as ->.
+    { destruct sg'; cbn [sender_preimage]; try reflexivity; rewrite Hty, Hl, Hp; reflexivity. }
+    cbn [t_r t_s set_vrs]. apply recover_plain_signed; assumption.
+  Qed.
+
+  Lemma typed_signed (f' : fork) (c : Z) (t : tx) (r s v : Z) (pk : pubkey) :
+    is_legacy (t_type t) = false -> modern_supports f' (t_type t) = true ->
+    recover (H (inner_preimage t c)) r s v = Some pk ->
+    1 <= r < secp_n -> 1 <= s <= secp_half_n -> v = 0 \/ v = 1 ->
+    sender (Modern f' c) (set_chain_vrs t c v r s) = ROk (addr_of pk).
+  Proof.
+    intros El Hsup Hr Hrr Hs Hv. cbn [Signer.sender]. unfold modern_sender.
+    cbn [t_type set_chain_vrs t_v t_r t_s]. rewrite Hsup, El. cbn [negb].
+    assert (tx_chain_id (set_chain_vrs t c v r s) = c) as ->.
+    { unfold tx_chain_id. cbn [t_type set_chain_vrs t_chain].
+      destruct (t_type t); try reflexivity; discriminate. }
+    rewrite Z.eqb_refl. cbn [negb]. apply recover_plain_signed; assumption.
+  Qed.
+
+  Theorem sender_sign_compatible : recover_sign -> sign_low_s -> sign_range ->
+    forall (sg sg' : signer) (t : tx) (k : key), signer_wf sg -> sign_guard sg t ->
+    compatible sg sg' (t_type t) ->
+    exists t', sign_tx sg t k = ROk t' /\ sender sg' t' = ROk (addr_of (pub k)).
+  Proof.
+    intros HRS HLS HRG sg sg' t k Hwf (Hsup & Hch & H256) (Hsup' & Hcomp).
+    pose proof secp_facts as F.
+    unfold Signer.sign_tx. specialize (HRS k (signer_hash sg t)).
+    specialize (HLS k (signer_hash sg t)). specialize (HRG k (signer_hash sg t)).
+    destruct (sign k (signer_hash sg t)) as [[r s] v].
+    destruct HRG as (Hr & Hs & Hv). assert (Hs' : 1 <= s <= secp_half_n) by lia.
+    unfold Signer.signer_hash in HRS.
+    destruct (is_legacy (t_type t)) eqn:El.
+    - (* legacy *)
+      assert (Ety : t_type t = LegacyTx) by (destruct (t_type t); try discriminate; reflexivity).
+      destruct sg as [| |c|f c]; cbn [signer_wf signer_chain_id signer_preimage] in *.
+      + unfold with_signature, signature_values, frontier_sigvals. rewrite El.
+        rewrite decode_v_small by assumption. unfold set_signature_values. rewrite Ety.
+        eexists. split; [reflexivity|]. apply unprotected_signed; assumption.
+      + unfold with_signature, signature_values, frontier_sigvals. rewrite El.
+        rewrite decode_v_small by assumption. unfold set_signature_values. rewrite Ety.
+        eexists. split; [reflexivity|]. apply unprotected_signed; assumption.
+      + unfold with_signature, signature_values, eip155_sigvals. rewrite El.
+        assert ((c =? 0) = false) as -> by lia. unfold set_signature_values. rewrite Ety.
+        eexists. split; [reflexivity|].
+        destruct sg' as [| |c'|f' c']; cbn [signer_chain_id] in Hcomp; try discriminate;
+          inversion Hcomp; subst c'.
+        * cbn [Signer.sender]. apply eip155_signed; try assumption.
+        * cbn [Signer.sender]. unfold modern_sender. cbn [t_type set_vrs].
+          cbn [signer_supports] in Hsup'. rewrite Hsup', El. cbn [negb].
+          apply eip155_signed; try assumption.
+      + unfold with_signature, signature_values, modern_sigvals.
+        cbn [signer_supports] in Hsup. rewrite Hsup, El. cbn [negb].
+        unfold eip155_sigvals. rewrite El.
+        assert ((c =? 0) = false) as -> by lia. unfold set_signature_values. rewrite Ety.
+        eexists. split; [reflexivity|].
+        destruct sg' as [| |c'|f' c']; cbn [signer_chain_id] in Hcomp; try discriminate;
+          inversion Hcomp; subst c'.
+        * cbn [Signer.sender]. apply eip155_signed; try assumption.
+        * cbn [Signer.sender]. unfold modern_sender. cbn [t_type set_vrs].
+          cbn [signer_supports] in Hsup'. rewrite Hsup', El. cbn [negb].
+          apply eip155_signed; try assumption.
+    - (* typed: only modern signers sign and recover *)
+      destruct sg as [| |c|f c]; cbn [signer_supports] in Hsup; try congruence.
+      cbn [signer_wf signer_chain_id signer_preimage] in *.
+      destruct sg' as [| |c'|f' c']; cbn [signer_supports signer_chain_id] in Hsup', Hcomp;
+        try congruence. inversion Hcomp; subst c'.
+      unfold with_signature, signature_values, modern_sigvals. rewrite Hsup, El. cbn [negb].
+      specialize (Hch eq_refl c eq_refl).
+      assert (negb (t_chain t =? 0) && negb (t_chain t =? c) = false) as ->.
+      { destruct Hch as [E|E]; rewrite E; rewrite ?Z.eqb_refl; cbn [negb andb];
+          rewrite ?andb_false_r; reflexivity. }
+      assert (Hfin : forall c' v' r' s', c' = c -> v' = v -> r' = r -> s' = s ->
+                sender (Modern f' c) (set_chain_vrs t c' v' r' s') = ROk (addr_of (pub k))).
+      { intros c' v' r' s' -> -> -> ->. apply typed_signed; assumption. }
+      unfold set_signature_values. cbn [signer_chain_id].
+      destruct (t_type t) eqn:Ety; try discriminate; cbn [is_u256_type] in H256.
+      + eexists. split; [reflexivity|]. apply Hfin; reflexivity.
+      + eexists. split; [reflexivity|]. apply Hfin; reflexivity.
+      + specialize (H256 eq_refl c eq_refl).
+        eexists. split; [reflexivity|]. apply Hfin; apply u256_from_big_small; lia.
+      + specialize (H256 eq_refl c eq_refl). rewrite u256_overflow_small by lia.
+        eexists. split; [reflexivity|]. apply Hfin; apply u256_from_big_small; lia.
+  Qed.
 End Scheme.
 
 (* ---------- which V values are admissible, for V >= 0 (what RLP / JSON can carry) ---------- *)
-Lemma is_protected_v_false (v : Z) : 0 <= v ->
-  (is_protected_v v = false <-> v = 27 \/ v = 28 \/ v = 1 \/ v = 0).
-Proof.
-  intros Hv. pose proof two64_val as T. unfold is_protected_v.
-  rewrite (bitlen_le _ 8) by lia. change (2 ^ 8) with 256. rewrite Z.abs_eq by lia.
-  destruct (v <? 256) eqn:E.
-  - rewrite u64_small by (rewrite Z.abs_eq; lia). rewrite Z.abs_eq by lia.
-    rewrite !andb_false_iff, !negb_false_iff, !Z.eqb_eq. lia.
-  - split; [discriminate|]. lia.
-Qed.
 
 Definition expected_v (sg : signer) (t : tx) (v : Z) : Prop :=
   if is_legacy (t_type t) then
